@@ -116,6 +116,17 @@ func c05Rules(p *core.Prog, r *core.Run) {
 				}
 			}
 			r.Check("C05.P3", "process:no-match", gated, p.InstrPos(ret), "errNoMatch is returned when nothing was decrypted")
+		case func() bool {
+			for _, g := range errorSentinels(p, ret.Results[1]) {
+				if g == "ech.errNoMatch" {
+					return true
+				}
+			}
+			return false
+		}():
+			// the handler recognises "no match" by identity (err != errNoMatch):
+			// a wrapped one is an abort
+			r.Check("C05.P3", "process:no-match-bare", false, p.InstrPos(ret), "errNoMatch leaves the processor inside another error (%s); the handler compares by identity, so this hello is aborted instead of passed through", short(e))
 		}
 	}
 	r.Check("C05.P3", "process:not-applicable-exit", nilnil >= 1, p.Pos(m.process.Pos()), "hellos without TLS 1.3 / ECH extension / keys leave the processor with (nil, nil) (%d exits)", nilnil)
@@ -271,29 +282,50 @@ func c01Route(p *core.Prog, r *core.Run, m *echModel, rule string) {
 	}
 	// first flight
 	var gotInner, gotOuter bool
+	// (the record stored may be selected beforehand - `buf, err = c.marshalHello()`
+	// with one Marshal call per branch: every way the value gets there is judged
+	// with what is known on that way)
+	type flight struct {
+		st *ssa.Store
+		v  *core.Expr
+		fs []core.Fact
+	}
+	var flights []flight
 	for _, st := range fieldStores(p, []*ssa.Function{nc}, m.fConn["readBuf"]) {
-		v := p.X(st.Val)
+		var expand func(val ssa.Value, fs []core.Fact, depth int)
+		expand = func(val ssa.Value, fs []core.Fact, depth int) {
+			if ph, ok := val.(*ssa.Phi); ok && depth < 3 {
+				for i, e := range ph.Edges {
+					expand(e, append(p.EdgeFacts(ph.Block().Preds[i], ph.Block()), fs...), depth+1)
+				}
+				return
+			}
+			flights = append(flights, flight{st, p.X(val), fs})
+		}
+		expand(st.Val, p.Facts(st.Block()), 0)
+	}
+	for _, fl := range flights {
+		st, v, fs := fl.st, fl.v, fl.fs
 		if !(v.Op == "ext" && v.Name == "#0" && v.Args[0].Op == "call" && v.Args[0].Name == "(*ech.clientHello).Marshal") {
 			r.Check(rule, "NewConn:first-flight", false, p.InstrPos(st), "the first flight is not the output of Marshal(): %s", short(v))
 			continue
 		}
 		h := v.Args[0].Args[0]
-		fs := p.Facts(st.Block())
-		innerNN := core.HasFact(fs, "!=", `new<ech\.Conn>\.inner`, "nil")
-		innerNil := core.HasFact(fs, "==", `new<ech\.Conn>\.inner`, "nil")
+		innerNN := m.innerFact(fs, "!=")
+		innerNil := m.innerFact(fs, "==")
 		if ph, isPhi := h.Val.(*ssa.Phi); isPhi {
 			// one Marshal call on a hello selected beforehand: judge every way
 			// the selection is made
 			for i, e := range ph.Edges {
 				he := p.X(e)
 				efs := append(p.EdgeFacts(ph.Block().Preds[i], ph.Block()), fs...)
-				nn := core.HasFact(efs, "!=", `new<ech\.Conn>\.inner`, "nil")
-				isNil := core.HasFact(efs, "==", `new<ech\.Conn>\.inner`, "nil")
+				nn := m.innerFact(efs, "!=")
+				isNil := m.innerFact(efs, "==")
 				switch {
-				case he.Op == "field" && he.Obj == m.fConn["inner"]:
+				case m.innerRef(he):
 					gotInner = nn
 					r.Check(rule, "NewConn:first-flight-inner", nn, p.InstrPos(st), "inner.Marshal() is forwarded only when inner != nil")
-				case he.Op == "field" && he.Obj == m.fConn["outer"]:
+				case m.outerRef(he):
 					gotOuter = isNil
 					r.Check(rule, "NewConn:first-flight-outer", isNil, p.InstrPos(st), "outer.Marshal() is forwarded exactly when inner == nil")
 				default:
@@ -303,10 +335,10 @@ func c01Route(p *core.Prog, r *core.Run, m *echModel, rule string) {
 			continue
 		}
 		switch {
-		case h.Op == "field" && h.Obj == m.fConn["inner"]:
+		case m.innerRef(h):
 			gotInner = innerNN
 			r.Check(rule, "NewConn:first-flight-inner", innerNN, p.InstrPos(st), "inner.Marshal() is forwarded only when inner != nil")
-		case h.Op == "field" && h.Obj == m.fConn["outer"]:
+		case m.outerRef(h):
 			gotOuter = innerNil
 			r.Check(rule, "NewConn:first-flight-outer", innerNil, p.InstrPos(st), "outer.Marshal() is forwarded exactly when inner == nil")
 		default:
@@ -330,7 +362,7 @@ func c01Route(p *core.Prog, r *core.Run, m *echModel, rule string) {
 	for _, flag := range []string{"readPassthrough", "writePassthrough"} {
 		for _, st := range fieldStores(p, []*ssa.Function{nc}, m.fConn[flag]) {
 			v := p.X(st.Val)
-			ok := v.Op == "bin" && v.Name == "==" && v.Args[1].Name == "nil" && v.Args[0].Op == "field" && v.Args[0].Obj == m.fConn["inner"]
+			ok := v.Op == "bin" && v.Name == "==" && v.Args[1].Name == "nil" && m.innerRef(v.Args[0])
 			r.Check(rule, "NewConn:"+flag, ok, p.InstrPos(st), "%s = (inner == nil)", flag)
 		}
 	}
@@ -486,6 +518,21 @@ func c05SniAlpn(p *core.Prog, r *core.Run, m *echModel, rule string) {
 		r.Check(rule, "parseExtensions:ALPN", okBase && okElem && typeFact(p.Facts(st.Block()), "16"), p.InstrPos(st), "ALPNProtos = append(ALPNProtos, string(protocol_name)) exactly as read, in extension 16")
 	}
 	r.Check(rule, "parseExtensions:ALPN-site", n == 1, p.Pos(fn.Pos()), "one place appends to ALPNProtos (found %d)", n)
+	// ... and stays as read: nothing in the package reorders, dedups or edits
+	// the list in place (the order is the client's preference, what the
+	// accessor reports and what a retried hello is compared with)
+	nMut := 0
+	for _, s := range allCalls(p, p.PkgFuncs(Ech)) {
+		if !matches(`sort\.(Strings|Slice|SliceStable|Sort|Stable)|slices\.(Sort.*|Reverse|Compact.*|DeleteFunc|Delete|Insert|Replace)|copy|clear`, s.X.Name) || len(s.X.Args) == 0 {
+			continue
+		}
+		a := s.X.Args[0]
+		if a.Any(func(e *core.Expr) bool { return e.Op == "field" && e.Obj == m.fCH["ALPNProtos"] }) {
+			nMut++
+			r.Check(rule, fmt.Sprintf("ALPNProtos:in-place#%d", nMut), false, p.InstrPos(s.Instr), "%s works in place on the parsed ALPN list", s.X.Name)
+		}
+	}
+	r.Check(rule, "ALPNProtos:as-read", nMut == 0, p.Pos(fn.Pos()), "the parsed ALPN list is never reordered or edited in place (%d such calls)", nMut)
 	// nesting of the cursors: list cursors are uint16-prefixed reads of the extension data
 	lists := 0
 	for _, s := range callSites(p, []*ssa.Function{fn}, `\(\*cryptobyte\.String\)\.ReadUint16LengthPrefixed`) {
